@@ -333,7 +333,7 @@ def field_mutation_sites(F, adt_id, field, bodies=None):
     return out
 
 
-def deep_names(b, place, at, hops=5):
+def deep_names(b, place, at, hops=5, nargs=1):
     """field names and callee names met while following a value back through receiver (arg0) chains"""
     fields, calls = set(), set()
     work = [(place, at, hops)] if place is not None else []
@@ -344,7 +344,27 @@ def deep_names(b, place, at, hops=5):
             fields |= set(o.field_names())
             if o.kind == "call":
                 calls.add(o.call.name())
-                if h > 0 and o.call.bb not in seen and o.call.args and op_place(o.call.args[0]) is not None:
+                if h > 0 and o.call.bb not in seen and o.call.args:
                     seen.add(o.call.bb)
-                    work.append((op_place(o.call.args[0]), (o.call.bb, "T"), h - 1))
+                    for a in o.call.args[:nargs]:
+                        if op_place(a) is not None:
+                            work.append((op_place(a), (o.call.bb, "T"), h - 1))
     return fields, calls
+
+
+def deep_arg_fields(b, place, at, hops=6, nargs=1):
+    """{'argN.field...'} reached by following a value back through receiver chains and call arguments 0..1"""
+    out = set()
+    work = [(place, at, hops)] if place is not None else []
+    seen = set()
+    while work:
+        pl, at_, h = work.pop()
+        for o in flow.origins(b, pl, at=at_):
+            if o.kind == "arg":
+                out.add("arg%d%s" % (o.local, ("." + ".".join(o.field_names())) if o.field_names() else ""))
+            elif o.kind == "call" and h > 0 and o.call.bb not in seen:
+                seen.add(o.call.bb)
+                for a in o.call.args[:nargs]:
+                    if op_place(a) is not None:
+                        work.append((op_place(a), (o.call.bb, "T"), h - 1))
+    return out
